@@ -602,6 +602,34 @@ var differs = []differ{
 	// single-point content changes
 	{"command-change", func(t *rapid.T, w *world) bool { w.Step.Command += "!"; return true }},
 	{"repo-change", func(t *rapid.T, w *world) bool { w.Repo += "!"; return true }},
+	{"repo-spelling-change", func(t *rapid.T, w *world) bool {
+		// two spellings that usually reach the same repository are still two URLs: the `.git` suffix, a
+		// trailing slash, the letter case of the host part
+		switch rapid.IntRange(0, 2).Draw(t, "repospelling") {
+		case 0:
+			if strings.HasSuffix(w.Repo, ".git") {
+				w.Repo = strings.TrimSuffix(w.Repo, ".git")
+			} else {
+				w.Repo += ".git"
+			}
+		case 1:
+			if strings.HasSuffix(w.Repo, "/") {
+				w.Repo = strings.TrimSuffix(w.Repo, "/")
+			} else {
+				w.Repo += "/"
+			}
+		default:
+			up := strings.ToUpper(w.Repo)
+			if up == w.Repo {
+				up = strings.ToLower(w.Repo)
+			}
+			if up == w.Repo {
+				return false
+			}
+			w.Repo = up
+		}
+		return true
+	}},
 	{"step-env-value-change", func(t *rapid.T, w *world) bool {
 		k, ok := anyKey(w.Step.Env)
 		if !ok {
